@@ -78,9 +78,12 @@ def build_cell(case, system, lattice):
         rr = recip / NKFFT[:, None]
         # length such that tetrahedra larger than vfrac (in units of the reduced reciprocal cell) are split
         V = abs(np.linalg.det(lattice)) * np.prod(NKFFT)
-        length = (V / cell["vfrac"]) ** (1 / 3)
+        # (the factors 1.000417 / 1.000731 keep the thresholds off the exact sizes of bisected tetrahedra:
+        #  GridTetra.split_tetra_size/_volume stop at `max < threshold` but split only `> threshold`, so a
+        #  tetrahedron whose size EQUALS the threshold makes the constructor loop forever - not the subject of C33)
+        length = (V / (cell["vfrac"] * 1.000417)) ** (1 / 3)
         s0 = max(np.linalg.norm(np.array(c) @ rr) for c in itertools.product((-1, 0, 1), repeat=3))
-        length_size = 2 * np.pi * np.sqrt(2) / (cell["sizef"] * s0)
+        length_size = 2 * np.pi * np.sqrt(2) / (cell["sizef"] * 1.000731 * s0)
         if cell["src"] == "custom":
             v0 = np.array(cell["v0"])
             M = cell["scale"] * (np.eye(3) + np.array(cell["noise"]).reshape(3, 3))
